@@ -108,6 +108,14 @@ class ClauseRunner(object):
             if self.predicates[k["predicate"]](case):
                 st["excluded_known"] += 1
                 return None
+        if isinstance(case, dict):
+            # process-global counters of the library (identifier generators in default arguments / module globals) start every case at a value that is part
+            # of the case: 'any number of earlier calls' is a generated dimension, and a case stays a pure function of its description
+            try:
+                from harness.libstate import set_identifier_generators
+                set_identifier_generators(case.get("id_offset", 0) if isinstance(case.get("id_offset", 0), int) else 0)
+            except Exception:
+                pass
         old = signal.signal(signal.SIGALRM, _alarm)
         signal.alarm(self.clause.watchdog)
         t_start = time.time()
